@@ -40,7 +40,9 @@ pub struct Case {
 const CMDS: [&str; 3] = ["c0", "c1", "c2"];
 
 pub fn strategy() -> impl Strategy<Value = Case> {
-    (1usize..=5, 2usize..=4)
+    // mostly small rings; one case in twelve has a two-digit ring (9-12 slots, 10 being the default
+    // that a configuration may leave out) and a history just long enough to wrap
+    (prop_oneof![11 => 1usize..=5, 1 => 9usize..=12], 2usize..=4)
         .prop_flat_map(|(m, nt)| {
             let run = (
                 proptest::sample::subsequence(CMDS.to_vec(), 1..=3),
@@ -52,7 +54,8 @@ pub fn strategy() -> impl Strategy<Value = Case> {
                 prop_oneof![5 => Just(0u8), 1 => Just(1u8), 1 => Just(2u8)],
                 prop_oneof![6 => Just(0u8), 1 => Just(1u8), 1 => Just(2u8)],
             );
-            (Just(m), Just(nt), vec(run, 1..=(3 * m + 3)))
+            let len = if m >= 9 { (m + 1)..=(m + 4) } else { 1..=(3 * m + 3) };
+            (Just(m), Just(nt), vec(run, len))
         })
         .prop_map(|(m, nt, rruns)| {
             let tname = |i: usize| format!("t{}", i);
@@ -130,7 +133,8 @@ fn show_logs(env: &mut Env, id: Option<&str>) -> Result<Result<Logs, String>, Ch
 pub fn check(case: &Case, w: usize) -> CheckResult {
     let cfg = ConfigSpec {
         targets: (0..case.ntargets).map(|i| TargetSpec::new(&format!("t{}", i))).collect(),
-        max_retained_runs: Some(case.max_retained),
+        // 10 is the documented default: such configurations leave the setting out
+        max_retained_runs: if case.max_retained == 10 { None } else { Some(case.max_retained) },
         sequences: [("nothing".to_string(), vec![])].into_iter().collect(),
         ..Default::default()
     };
@@ -411,7 +415,7 @@ fn blocks_brief(l: &Logs) -> Value {
 }
 
 pub fn run(ctx: &mut Ctx) {
-    ctx.rule = "max_retained_runs M in 1..5 x a history of 1..3M+3 runs, each with its own command subset, target selection, per-task output tagged with the run number, \
+    ctx.rule = "max_retained_runs M in 1..5 x a history of 1..3M+3 runs (one case in twelve: M in 9..12 - 10 by leaving the setting out - and M+1..M+4 runs), each with its own command subset, target selection, per-task output tagged with the run number, \
 silent streams, (25%) one failing task, and (2 in 8) completed runs that have nothing to do (a sequence expanding to no command; a change-driven run right after `checkpoint update -p`), and (2 in 7) invocations that abort before completing (malformed argmap file, undefined sequence) after which everything must still show the last completed run. model: the ids in use and, per id, the document and logs of its latest occupant. after every run: `result show` == printed document \
 (modulo timestamp); `log show` == exactly that run's non-empty logs as a set of (header, bytes) blocks; `log show --id` for each of the last min(k,M) runs; <= M ids and directories. \
 non-trivial = history longer than M in which two runs sharing an id differ in their (command,target) sets; distinct by SHA-256"
